@@ -36,6 +36,7 @@ import DisjointImpls.Lemmas.CanonAlpha
 import DisjointImpls.Lemmas.CanonAlphaHeader
 import DisjointImpls.Lemmas.CanonIsRenaming
 import DisjointImpls.Lemmas.CanonRoundTrip
+import DisjointImpls.Lemmas.CanonHeaderConverse
 import DisjointImpls.Group
 namespace DI
 
@@ -1216,5 +1217,244 @@ theorem C13_converse_const_generic_arg_example :
     alphaRenameC_cr (renamingBetween_rt crConstArg crConstArgM) crConstArg = crConstArgM ∧ rtHolds crConstArg = true := by
   refine ⟨?_, ?_, ?_, ?_, ?_, ?_⟩ <;> with_unfolding_all decide
 end RoundTripExamples
+
+/-! ## The converse of alpha-invariance for HEADERS (what the grouping relies on)
+
+`mkBuckets` groups the canonical blocks by `groupIdOf` = `mkHdr` (trait path, self type). `C13_alpha_header*` /
+`C06_renamed_permuted_same_header` say: blocks whose headers are equal up to renaming land in one bucket. This section is
+the ONLY-IF half: two blocks land in one bucket only if their headers are textual renamings of each other.
+Definitions (`Lemmas/CanonHeaderConverseDefs.lean`, all executable): `hdrIx_hc item` = the indexer run on the header ALONE
+from the start state of the block (`ixInit item`: the declared names), `hdrRenaming_hc item` the renaming read off it (`rH`),
+`hdrRenamingBetween_hc item item'` = `rH ; rH'⁻¹`. The ONE side condition `hdrConverseOK_hc item` (on the block BEFORE
+canonicalisation):
+* `canonWF item`          the condition of idempotence;
+* `hdrFirst_hc item`      the indexer reaches trait path and self type first: attributes, `default`, `unsafe`, the skipped
+                          `Generics` node and the `!` of a negative impl hand out no number (state-based, exact);
+* `ixVis (mkHdr item)`    the indexer visits every parameter position of the header (no nested `Generics` node; the
+                          attributes of an expression path are an ignored child);
+* `hdrShapeOK_hc item`    the four executable conditions of the tree-level converse `C13_same_resolved_only_if_renaming`
+                          for the header and `rH` (`renOK_cr`, `qsInvOK_rt`, `acOK_rt`, `decNF_cr`);
+* `strayFree_hc item`     no identifier in parameter position of the CANONICAL header is a reserved identifier `_ŠČ…` that
+                          is not the new spelling of a declared parameter of ITS position (lifetime / type / const). Needed:
+                          `C13_same_header_stray_counterexamples` — `impl<T> Kita for (T, _ŠČ1)` lands in the bucket of
+                          `impl<T, U> Kita for (T, U)`. -/
+
+/-- **(b) the header of the canonical block is the resolver applied to the header** (`r` the computed renaming of the whole
+    block) — no side condition at all (for a tree that is not an `ItemImpl` both sides are the empty header) -/
+theorem C13_header_of_canon (item : T) : groupIdOf (canon item) = rsT (indexImpl item).renaming (groupIdOf item) :=
+  mkHdr_canon_hc item
+
+/-- … for the trait path and the self type separately -/
+theorem C13_header_parts_of_canon (item : T) :
+    implTraitPath (canon item) = (implTraitPath item).map (rsT (indexImpl item).renaming) ∧
+    implSelfTy (canon item) = (implSelfTy item).map (rsT (indexImpl item).renaming) :=
+  ⟨implTraitPath_canon_hc item, implSelfTy_canon_hc item⟩
+
+/-- **the numbering of the header's parameters depends on the header alone**: when the indexer reaches the header first
+    (`hdrFirst_hc`, executable), the renaming computed for the block starts, in each of the three name spaces, with the
+    renaming `hdrRenaming_hc item` that the indexer computes for the header ALONE (from the declared names and the tree
+    `mkHdr item`, nothing else — `C13_header_numbering_depends_on_header_only`); items, inline bounds and where-clause
+    only append -/
+theorem C13_header_numbering_local (item : T) (hf : hdrFirst_hc item = true) :
+    ∃ e : Renaming, (indexImpl item).renaming.lt = (hdrRenaming_hc item).lt ++ e.lt ∧
+      (indexImpl item).renaming.ty = (hdrRenaming_hc item).ty ++ e.ty ∧
+      (indexImpl item).renaming.co = (hdrRenaming_hc item).co ++ e.co := by
+  obtain ⟨l1, e1⟩ := hdr_prefix_hc item hf .lt
+  obtain ⟨l2, e2⟩ := hdr_prefix_hc item hf .ty
+  obtain ⟨l3, e3⟩ := hdr_prefix_hc item hf .co
+  exact ⟨⟨l1, l2, l3⟩, e1, e2, e3⟩
+
+/-- two blocks with the same declared names (`ixInit`: the three lists of declared lifetime / type / const names) and the
+    same header have the same header renaming — whatever their items, bounds and where-clauses are -/
+theorem C13_header_numbering_depends_on_header_only (item item' : T) (ed : ixInit item = ixInit item')
+    (eh : mkHdr item = mkHdr item') : hdrRenaming_hc item = hdrRenaming_hc item' := by
+  unfold hdrRenaming_hc hdrIx_hc
+  rw [ed, eh]
+
+/-- **every renamed parameter that occurs in the header is numbered by the header alone**: the resolver of the block acts
+    on the header like the resolver of the header's own renaming. Side conditions (executable): `canonWF item` (only
+    `namesDistinct` and `deadFresh` are used), `hdrFirst_hc item`, `ixVis (mkHdr item)` -/
+theorem C13_header_resolved_locally (item : T) (hwf : canonWF item = true) (hf : hdrFirst_hc item = true)
+    (hv : ixVis (mkHdr item) = true) :
+    groupIdOf (canon item) = rsT (hdrRenaming_hc item) (groupIdOf item) :=
+  mkHdr_canon_local_hc item hwf hf hv
+
+/-- the header's renaming is invertible (reserved new names, pairwise distinct per name space) — no side condition -/
+theorem C13_header_renaming_invertible (item : T) : InvOK_rt (hdrRenaming_hc item) := hdr_invOK_hc item
+
+/-- **(a) equal canonical headers were handed the same names**, per name space and in the order of the numbering (the
+    header analogue of `C13_canon_names`). Side conditions (executable, both blocks): `canonWF`, `hdrFirst_hc`,
+    `strayFree_hc` -/
+theorem C13_same_header_names (item item' : T) (hwf : canonWF item = true) (hwf' : canonWF item' = true)
+    (hf : hdrFirst_hc item = true) (hf' : hdrFirst_hc item' = true) (hs : strayFree_hc item = true)
+    (hs' : strayFree_hc item' = true) (e : groupIdOf (canon item) = groupIdOf (canon item')) :
+    (hdrRenaming_hc item').lt.map Prod.snd = (hdrRenaming_hc item).lt.map Prod.snd ∧
+    (hdrRenaming_hc item').ty.map Prod.snd = (hdrRenaming_hc item).ty.map Prod.snd ∧
+    (hdrRenaming_hc item').co.map Prod.snd = (hdrRenaming_hc item).co.map Prod.snd :=
+  ⟨hdr_names_hc item item' hwf hwf' hf hf' hs hs' e .lt, hdr_names_hc item item' hwf hwf' hf hf' hs hs' e .ty,
+    hdr_names_hc item item' hwf hwf' hf hf' hs hs' e .co⟩
+
+/-- **the converse of alpha-invariance for headers**: two blocks receive the same canonical header (the same group id —
+    they land in one bucket of `mkBuckets`) ONLY IF their headers are textual renamings of each other: the header of `item'`
+    is the header of `item` renamed by the computed renaming `rH ; rH'⁻¹` of the two headers
+    (`hdrRenamingBetween_hc item item'`: it pairs the `i`-th numbered parameter of the header of `item` with the `i`-th
+    numbered parameter of the header of `item'`, and mentions the parameters of the headers only). Side condition:
+    `hdrConverseOK_hc` (executable) for both blocks. Nothing is assumed about items, bounds, where-clauses and parameters
+    that do not occur in the header (D21: they may differ arbitrarily, `C13_same_header_examples`). -/
+theorem C13_same_header_only_if_renaming (item item' : T) (h : hdrConverseOK_hc item = true)
+    (h' : hdrConverseOK_hc item' = true) (e : groupIdOf (canon item) = groupIdOf (canon item')) :
+    acT_cr (hdrRenamingBetween_hc item item') (groupIdOf item) = groupIdOf item' :=
+  same_header_only_if_renaming_hc item item' h h' e
+
+/-- … for the trait path and the self type separately -/
+theorem C13_same_header_only_if_renaming_parts (item item' : T) (h : hdrConverseOK_hc item = true)
+    (h' : hdrConverseOK_hc item' = true) (e : groupIdOf (canon item) = groupIdOf (canon item')) :
+    (implTraitPath item).map (acT_cr (hdrRenamingBetween_hc item item')) = implTraitPath item' ∧
+    (implSelfTy item).map (acT_cr (hdrRenamingBetween_hc item item')) = implSelfTy item' :=
+  same_header_parts_hc item item' h h' e
+
+namespace Ex13
+/-- `impl<T> Kita for (T, _ŠČ1) {}`: a concrete type spelled like a reserved identifier (the decoder makes it a leaf) -/
+def hcStray : T := implOf [tyParam "T" []] (tuple [tyPath [seg "T"], .tparam "_ŠČ1"])
+/-- `impl<T, U> Kita for (T, U) {}` -/
+def hcTwo : T := implOf [tyParam "T" [], tyParam "U" []] (tuple [tyPath [seg "T"], tyPath [seg "U"]])
+/-- `impl<T> Kita for [u8; T] {}`: a type parameter as a lone expression (rejected by rustc) -/
+def hcKindTy : T := implOf [tyParam "T" []] (array (tyPath [seg "u8"]) (exprPath [seg "T"]))
+/-- `impl<const N: usize> Kita for [u8; N] {}` -/
+def hcKindCo : T := implOf [coParam "N"] (array (tyPath [seg "u8"]) (exprPath [seg "N"]))
+def hcRef (l : String) (t : T) : T := .node "Type::Reference" [] [lifetime l, t]
+/-- `impl<'a> Kita for (_ŠČ0, &'a u8) {}` -/
+def hcLtA : T := implOf [ltParam "a"] (tuple [.tparam "_ŠČ0", hcRef "a" (tyPath [seg "u8"])])
+/-- `impl<T> Kita for (T, &'_ŠČ0 u8) {}` -/
+def hcLtB : T := implOf [tyParam "T" []] (tuple [tyPath [seg "T"], hcRef "_ŠČ0" (tyPath [seg "u8"])])
+/-- the five clauses of `hdrConverseOK_hc` -/
+def hcClauses (item : T) : Bool × Bool × Bool × Bool × Bool :=
+  (canonWF item, hdrFirst_hc item, ixVis (mkHdr item), hdrShapeOK_hc item, strayFree_hc item)
+end Ex13
+
+section HeaderConverseExamples
+open Ex13
+set_option maxRecDepth 100000
+
+/-- non-vacuity of `C13_header_of_canon`, `C13_header_numbering_local`, `C13_header_resolved_locally`: on `mixed`
+    (`impl<'a, T: Tr<U>, U, const N: usize> Kita<'a> for [T; N] where U: Tr<T::Target>`) the header hands out `'a ↦ _ŠČ0,
+    T ↦ _ŠČ1, N ↦ _ŠČ2`; `U` is numbered later (`_ŠČ3`, through the bound of `T`) and is appended; the canonical header is
+    computed by the header's renaming; the renaming is not the identity -/
+theorem C13_header_local_examples :
+    (hdrFirst_hc mixed = true ∧ canonWF mixed = true ∧ ixVis (mkHdr mixed) = true ∧
+      hdrRenaming_hc mixed = ⟨[("a", "_ŠČ0")], [("T", "_ŠČ1")], [("N", "_ŠČ2")]⟩ ∧
+      (indexImpl mixed).renaming = ⟨[("a", "_ŠČ0")], [("T", "_ŠČ1"), ("U", "_ŠČ3")], [("N", "_ŠČ2")]⟩ ∧
+      groupIdOf (canon mixed) = rsT (hdrRenaming_hc mixed) (groupIdOf mixed) ∧
+      groupIdOf (canon mixed) = rsT (indexImpl mixed).renaming (groupIdOf mixed) ∧ groupIdOf (canon mixed) ≠ groupIdOf mixed) ∧
+    (hdrFirst_hc named = true ∧ hdrRenaming_hc named = ⟨[], [("T", "_ŠČ0")], []⟩ ∧
+      (indexImpl named).renaming = ⟨[], [("T", "_ŠČ0"), ("U", "_ŠČ1")], []⟩) := by
+  refine ⟨⟨?_, ?_, ?_, ?_, ?_, ?_, ?_, ?_⟩, ?_, ?_, ?_⟩ <;> with_unfolding_all decide
+
+/-- non-vacuity of `C13_header_numbering_depends_on_header_only`: `named` (`impl<U, T: Tr<U>> Kita for (T, T::Target)`) and
+    the block `impl<U, T> Kita for (T, T::Target)` without the bound have the same declared names and the same header; the
+    renamings computed for the whole blocks differ (`U` is numbered in the first one only) -/
+example : ixInit named = ixInit (implOf [tyParam "U" [], tyParam "T" []] (tuple [tyPath [seg "T"], tyPath [seg "T", seg "Target"]])) ∧
+    mkHdr named = mkHdr (implOf [tyParam "U" [], tyParam "T" []] (tuple [tyPath [seg "T"], tyPath [seg "T", seg "Target"]])) ∧
+    (indexImpl named).renaming ≠
+      (indexImpl (implOf [tyParam "U" [], tyParam "T" []] (tuple [tyPath [seg "T"], tyPath [seg "T", seg "Target"]]))).renaming := by
+  refine ⟨?_, ?_, ?_⟩ <;> with_unfolding_all decide
+
+/-- non-vacuity of `C13_same_header_names`, `C13_same_header_only_if_renaming` (and `_parts`): the side condition holds for
+    both blocks, the canonical headers are equal, the computed header renamings are the expected ones (not the identity),
+    and the conclusion is computed —
+    * `named` `impl<U, T: Tr<U>> Kita for (T, T::Target)` against `impl<B, A: Tr<B>> Kita for (A, A::Target)`: only `T ↦ A`
+      (`U` / `B` do not occur in the header), in both directions;
+    * `mixed` against `mixedRenamed` (`'a ↦ 'b`, `T ↦ U`, `N ↦ M`; the `U ↦ T` of the block-level renaming is not part of the
+      header's);
+    * **D21**: `impl<T, D> Kita for T` against `impl<T, E> Kita for T` — DIFFERENT canonical blocks
+      (`C13_converse_dead_parameter_example`), the SAME canonical header, and the header theorem applies (the renaming is
+      `T ↦ T`);
+    * **D24**: `impl<T, const N: usize> Kita for (W<T, N>, [T; N])` against `impl<T, const M: usize> Kita for (W<T, N>, [T; M])`:
+      same canonical header, the header of the second is the textual renaming `N ↦ M` (const name space only) of the first -/
+theorem C13_same_header_examples :
+    (hdrConverseOK_hc named = true ∧ hdrConverseOK_hc namedAB = true ∧ groupIdOf (canon named) = groupIdOf (canon namedAB) ∧
+      hdrRenamingBetween_hc named namedAB = ⟨[], [("T", "A")], []⟩ ∧
+      acT_cr (hdrRenamingBetween_hc named namedAB) (groupIdOf named) = groupIdOf namedAB ∧
+      hdrRenamingBetween_hc namedAB named = ⟨[], [("A", "T")], []⟩ ∧
+      acT_cr (hdrRenamingBetween_hc namedAB named) (groupIdOf namedAB) = groupIdOf named ∧ groupIdOf named ≠ groupIdOf namedAB) ∧
+    (hdrConverseOK_hc mixed = true ∧ hdrConverseOK_hc mixedRenamed = true ∧
+      groupIdOf (canon mixed) = groupIdOf (canon mixedRenamed) ∧
+      hdrRenamingBetween_hc mixed mixedRenamed = ⟨[("a", "b")], [("T", "U")], [("N", "M")]⟩ ∧
+      acT_cr (hdrRenamingBetween_hc mixed mixedRenamed) (groupIdOf mixed) = groupIdOf mixedRenamed ∧
+      groupIdOf mixed ≠ groupIdOf mixedRenamed) ∧
+    (hdrConverseOK_hc alphaDead = true ∧ hdrConverseOK_hc alphaDeadE = true ∧ canon alphaDead ≠ canon alphaDeadE ∧
+      groupIdOf (canon alphaDead) = groupIdOf (canon alphaDeadE) ∧
+      hdrRenamingBetween_hc alphaDead alphaDeadE = ⟨[], [("T", "T")], []⟩ ∧
+      acT_cr (hdrRenamingBetween_hc alphaDead alphaDeadE) (groupIdOf alphaDead) = groupIdOf alphaDeadE) ∧
+    (hdrConverseOK_hc crConstArg = true ∧ hdrConverseOK_hc crConstArgM = true ∧
+      groupIdOf (canon crConstArg) = groupIdOf (canon crConstArgM) ∧
+      hdrRenamingBetween_hc crConstArg crConstArgM = ⟨[], [("T", "T")], [("N", "M")]⟩ ∧
+      acT_cr (hdrRenamingBetween_hc crConstArg crConstArgM) (groupIdOf crConstArg) = groupIdOf crConstArgM ∧
+      groupIdOf crConstArg ≠ groupIdOf crConstArgM) := by
+  refine ⟨⟨?_, ?_, ?_, ?_, ?_, ?_, ?_, ?_⟩, ⟨?_, ?_, ?_, ?_, ?_, ?_⟩, ⟨?_, ?_, ?_, ?_, ?_, ?_⟩, ?_, ?_, ?_, ?_, ?_, ?_⟩
+  all_goals first | with_unfolding_all decide | decide +kernel
+
+/-- non-vacuity of `C13_same_header_only_if_renaming_parts`: trait path and self type of `named` / `namedAB` -/
+example : (implTraitPath named).map (acT_cr (hdrRenamingBetween_hc named namedAB)) = implTraitPath namedAB ∧
+    (implSelfTy named).map (acT_cr (hdrRenamingBetween_hc named namedAB)) = implSelfTy namedAB ∧
+    implSelfTy named ≠ implSelfTy namedAB := by
+  refine ⟨?_, ?_, ?_⟩ <;> with_unfolding_all decide
+
+/-- headers that are NOT renamings of each other get different group ids: `(T, T::Target)` (`named`) against `(T, U)` —
+    both satisfy the side condition, the computed renaming does not map one header to the other, and (as
+    `C13_same_header_only_if_renaming` says, contrapositively) the canonical headers differ -/
+theorem C13_different_headers_example :
+    hdrConverseOK_hc named = true ∧ hdrConverseOK_hc hcTwo = true ∧
+    acT_cr (hdrRenamingBetween_hc named hcTwo) (groupIdOf named) ≠ groupIdOf hcTwo ∧
+    groupIdOf (canon named) ≠ groupIdOf (canon hcTwo) := by
+  refine ⟨?_, ?_, ?_, ?_⟩ <;> with_unfolding_all decide
+
+/-- **the clause `strayFree_hc` is needed** — without it the full-strength statement is false, three closed witnesses, one
+    per position, each inside `canonWF` and inside every other clause of `hdrConverseOK_hc` (and the first inside
+    `roundTripOK_rt`):
+    * TYPE position: `impl<T> Kita for (T, _ŠČ1)` (a concrete type spelled `_ŠČ1`) and `impl<T, U> Kita for (T, U)` receive
+      the SAME canonical header `(_ŠČ0, _ŠČ1)` — the two blocks land in one bucket although `(T, _ŠČ1)` is not a renaming of
+      `(T, U)`; only the reserved spelling `_ŠČ…` of the user's type makes this possible;
+    * EXPRESSION position: `impl<T> Kita for [u8; T]` (a type parameter as a lone expression — rejected by rustc) and
+      `impl<const N: usize> Kita for [u8; N]` receive the same canonical header `[u8; _ŠČ0]`;
+    * LIFETIME position: `impl<'a> Kita for (_ŠČ0, &'a u8)` and `impl<T> Kita for (T, &'_ŠČ0 u8)` receive the same canonical
+      header `(_ŠČ0, &'_ŠČ0 u8)`.
+    In each pair the headers are not textual renamings of each other by the computed renaming, and the names handed out
+    differ -/
+theorem C13_same_header_stray_counterexamples :
+    (hcClauses hcStray = (true, true, true, true, false) ∧ hdrConverseOK_hc hcTwo = true ∧ roundTripOK_rt hcStray = true ∧
+      groupIdOf (canon hcStray) = groupIdOf (canon hcTwo) ∧
+      hdrRenamingBetween_hc hcStray hcTwo = ⟨[], [("T", "T")], []⟩ ∧
+      acT_cr (hdrRenamingBetween_hc hcStray hcTwo) (groupIdOf hcStray) ≠ groupIdOf hcTwo ∧
+      (hdrRenaming_hc hcTwo).ty.map Prod.snd ≠ (hdrRenaming_hc hcStray).ty.map Prod.snd) ∧
+    (hcClauses hcKindTy = (true, true, true, true, false) ∧ hdrConverseOK_hc hcKindCo = true ∧
+      groupIdOf (canon hcKindTy) = groupIdOf (canon hcKindCo) ∧
+      acT_cr (hdrRenamingBetween_hc hcKindTy hcKindCo) (groupIdOf hcKindTy) ≠ groupIdOf hcKindCo ∧
+      (hdrRenaming_hc hcKindCo).ty.map Prod.snd ≠ (hdrRenaming_hc hcKindTy).ty.map Prod.snd) ∧
+    (hcClauses hcLtA = (true, true, true, true, false) ∧ hcClauses hcLtB = (true, true, true, true, false) ∧
+      groupIdOf (canon hcLtA) = groupIdOf (canon hcLtB) ∧
+      acT_cr (hdrRenamingBetween_hc hcLtA hcLtB) (groupIdOf hcLtA) ≠ groupIdOf hcLtB ∧
+      (hdrRenaming_hc hcLtB).lt.map Prod.snd ≠ (hdrRenaming_hc hcLtA).lt.map Prod.snd) := by
+  refine ⟨⟨?_, ?_, ?_, ?_, ?_, ?_, ?_⟩, ⟨?_, ?_, ?_, ?_, ?_⟩, ?_, ?_, ?_, ?_, ?_⟩
+  all_goals first | with_unfolding_all decide | decide +kernel
+
+/-- the full-strength statement (no `strayFree_hc`) is false -/
+theorem C13_same_header_only_if_renaming_counterexample :
+    ¬ ∀ (item item' : T), roundTripOK_rt item = true → canonWF item' = true →
+        groupIdOf (canon item) = groupIdOf (canon item') →
+        acT_cr (hdrRenamingBetween_hc item item') (groupIdOf item) = groupIdOf item' := by
+  intro hall
+  obtain ⟨⟨_, h2, h3, h4, _, h6, _⟩, _⟩ := C13_same_header_stray_counterexamples
+  exact h6 (hall hcStray hcTwo h3 (hdrConverseOK_parts_hc h2).1 h4)
+
+/-- the presentation clause is needed as well (as for blocks, `C13_same_canon_qself_counterexample`): `impl<T> Kita for
+    <T>::A` and `impl<T> Kita for T::A` have the same canonical header and are not textual renamings of each other; the
+    first violates `hdrShapeOK_hc` (its `qsInvOK_rt` clause) only -/
+theorem C13_same_header_qself_counterexample :
+    hcClauses rtQself = (true, true, true, false, true) ∧ hdrConverseOK_hc rtPlain = true ∧
+    groupIdOf (canon rtQself) = groupIdOf (canon rtPlain) ∧
+    acT_cr (hdrRenamingBetween_hc rtQself rtPlain) (groupIdOf rtQself) ≠ groupIdOf rtPlain := by
+  refine ⟨?_, ?_, ?_, ?_⟩ <;> with_unfolding_all decide
+end HeaderConverseExamples
 
 end DI
